@@ -306,7 +306,7 @@ func ghostEntryKey(s *KeyedStateStore, key []byte) []byte { _, d := s.decodeKey(
 // key decodes to a different namespace and entry key (stateKeysInjective needs len < 256).
 //@ define dbReady(db) := db != nil && db.wal != nil && db.mtables != nil && db.wal.activeBuffer != nil && db.wal.latestSeqNum <= db.seqNum && !db.wal.sealedFlag
 //@ func KeyedStateStore.ApplyMutations
-//@   property C03
+//@   property C03 C05
 //@   requires dbReady(s.db) && s.keySpace != nil && partitioning.ghostValidKeySpace(s.keySpace) && len(subjectKey) < 4294967296
 //@   requires forall(0, len(mutations), func(n int) bool { return mutations[n] != nil && forall(0, len(mutations[n].Mutations), func(m int) bool {
 //@            return mutations[n].Mutations[m] != nil && (mutations[n].Mutations[m].GetPut() != nil || mutations[n].Mutations[m].GetDelete() != nil) }) })
@@ -350,8 +350,11 @@ func ghostEntryKey(s *KeyedStateStore, key []byte) []byte { _, d := s.decodeKey(
 
 // AdvanceWatermark: only the sender's entry changes; the cached watermark is a lower bound of
 // every upstream entry (so an upstream still at the epoch holds it at the epoch) and is one of them.
+// (The cached watermark - the one the handler is told with every flushed batch - is already the new
+// minimum when the first due timer is handed out.)
 //@ func TimerRegistry.AdvanceWatermark
 //@   property C11
+//@   atcall yield: r.watermark == compositeWatermark
 //@   requires wm != nil
 //@   modifies r.upstreams, r.watermark, KeyGroupPriorityQueue.*
 //@   ensures has(r.upstreams, senderID)
@@ -401,3 +404,16 @@ func ghostEntryKey(s *KeyedStateStore, key []byte) []byte { _, d := s.decodeKey(
 //@   property C15 C02
 //@   modifies nothing
 //@   ensures result == (s.statusVal == uint32(StatusReady))
+
+// The heap over the key groups compares timers by their TIMESTAMP bytes only (key layout:
+// <key group:2><schema:1><timestamp:8><subject key>), and a new per-key-group queue knows
+// nothing about what the database holds for it (allDataInCache false: the first Peek loads it -
+// otherwise timers pending at a checkpoint would never fire after a restore).
+//@ func NewTimerStore$0
+//@   property C10 C06
+//@   nosafety
+//@   ensures result == bytes.Compare(a[3:11], b[3:11])
+//@ func NewKeyGroupPriorityQueue
+//@   property C10 C06
+//@   nosafety
+//@   ensures result != nil && !result.allDataInCache && result.keyGroup == keyGroup && result.db == db && result.cache != nil
